@@ -349,7 +349,7 @@ func keySort(m *types.Map) *Sort {
 	s, ok := scalarSort(m.Key())
 	if !ok {
 		if _, isIface := m.Key().Underlying().(*types.Interface); isIface {
-			panic(unsupported("map with interface key"))
+			panic(unsupported("map with interface key: " + typeName(m)))
 		}
 		panic(unsupported("map with composite key " + typeName(m.Key())))
 	}
